@@ -1356,12 +1356,21 @@ def _gen_field(rng, i, typed=True):
 
 
 # names on which lower(), casefold() and upper().lower() disagree, combining characters, the Turkish i's
-CI_NAMES = ["größe", "straße", "λόγος", "ıd", "i̇d", "é_x", "ǆ", "ﬁeld", "σας", "maß", "ÿ", "ſ_x", "abc", "k_ab"]
+CI_NAMES = ["größe", "straße", "λόγος", "ıd", "i̇d", "é_x", "ǆ", "ﬁeld", "σας", "maß", "ÿ", "ſ_x", "abc", "k_ab",
+            # ASCII declared names that non-ASCII KEYS fold onto (casefold / NFKC), but do not lower() onto
+            "profile", "session", "strasse", "office", "flask", "kelvin", "angstrom"]
+FOLDS = [("ffi", "ﬃ"), ("ffl", "ﬄ"), ("ff", "ﬀ"), ("fi", "ﬁ"), ("fl", "ﬂ"), ("ss", "ß"), ("ss", "ẞ"), ("st", "ﬆ"), ("s", "ſ"),
+         ("k", "\u212a"), ("a", "\u212b"), ("a", "ａ"), ("i", "İ"), ("i", "ı")]
 
 
 def _ci_variants(rng, name):
     vs = [name.upper(), name.title(), name.swapcase(), name.capitalize(), name.casefold(), name.upper().lower()]
+    # keys that casefold() / NFKC-fold onto the name without lower()-ing onto it (ligatures, long s, sharp s, Kelvin sign ...)
+    for a, b in FOLDS:
+        if a in name:
+            vs += [name.replace(a, b, 1), name.replace(a, b, 1).upper(), name.replace(a, b, 1).title()]
     vs = [v for v in dict.fromkeys(vs) if v != name and v.isidentifier()]
+    rng.shuffle(vs)
     return vs
 
 
@@ -1913,6 +1922,9 @@ H_VALUES = {
     "{bad_hash}": _V("list", xs=[_V("bad", what="hash")]), "{'a':bad_eq}": _V("dict", kv=[["a", _V("bad", what="eq+ne")]]), "dt": _V("datetime"), "date": _V("date"),
     "td": _V("timedelta"), "'2020-01-01'": "2020-01-01", "'P'+'1'*3000": "P" + "1" * 3000, "'1:'*2000": "1:" * 2000, "'a=1&b=2'": "a=1&b=2", "'a,b'": "a,b",
     "{'kind':[]}": _V("dict", kv=[["kind", _V("list", xs=[])]]),
+    "{'proﬁle':1}": _V("dict", kv=[["proﬁle", 1]]), "{'ſession':'x'}": _V("dict", kv=[["ſession", "x"], ["profile", 2]]),
+    "{'straße':1,'STRAẞE':2}": _V("dict", kv=[["straße", 1], ["STRAẞE", 2]]), "{'oﬃce':1}": _V("dict", kv=[["oﬃce", 1], ["Oﬃce", 2], ["OFFICE", 3]]),
+    "{'\u212aelvin':1}": _V("dict", kv=[["\u212aelvin", 1], ["ﬂask", 2]]), "{'Proﬁle':1,'PROFILE':2}": _V("dict", kv=[["Proﬁle", 1], ["PROFILE", 2]]),
     "{'Größe':1}": _V("dict", kv=[["Größe", 1]]), "{'GRÖSSE':1}": _V("dict", kv=[["GRÖSSE", 1]]), "{'ΛΌΓΟΣ':'x'}": _V("dict", kv=[["ΛΌΓΟΣ", "x"], ["größe", 2]]),
     "{'größe':1,'Größe':2}": _V("dict", kv=[["größe", 1], ["Größe", 2]]), "{'STRASSE':1}": _V("dict", kv=[["STRASSE", 1], ["Straße", 3]]),
     "{'ID':1,'İD':2}": _V("dict", kv=[["ID", 1], ["İD", 2], ["Id", 3]]), "{'ΣΑΣ':1}": _V("dict", kv=[["ΣΑΣ", 1], ["Größe", 5]]), "{'Maß':'x'}": _V("dict", kv=[["Maß", "x"], ["MASS", 1]]), "'\\x00'": "\x00", "'١٢٣'": "١٢٣", "'1_000'": "1_000", "'0x10'": "0x10", "' 12 '": " 12 ",
@@ -1972,6 +1984,11 @@ H_SCHEMAS = {
     "S20f": {"name": "S20f", "fields": [_fld("straße", P("int"), case_insensitive=True, alias_from=["maß"]), _fld("ıd", P("int"), case_insensitive=True, default=0)],
              "options": {"data_first_search": False, "addition": True}},
     "S20c": {"name": "S20c", "fields": [_fld("größe", PINT), _fld("σας", P("int"), default=1)], "options": {"case_insensitive": True, "data_first_search": True, "collect_errors": True}},
+    "S21": {"name": "S21", "fields": [_fld("profile", P("int"), case_insensitive=True, default=0), _fld("session", P("str"), case_insensitive=True, default=""),
+                                       _fld("strasse", P("int"), case_insensitive=True, default=0), _fld("office", P("int"), case_insensitive=True, default=0)],
+            "options": {"data_first_search": True, "addition": True}},
+    "S21f": {"name": "S21f", "fields": [_fld("profile", P("int"), default=0), _fld("kelvin", PINT, default=1), _fld("flask", P("int"), alias_from=["office"], default=0)],
+             "options": {"data_first_search": False, "case_insensitive": True}},
     "S18": {"name": "S18", "fields": [_fld("a", H_TYPES["Set[list]"], required=False), _fld("n", {"schema": {"name": "S18n", "fields": [_fld("a", PINT)]}}, required=False)],
             "options": {"max_params": 2, "addition": True}},
 }
@@ -2000,6 +2017,8 @@ H_FUNCS = {
     "f11": {"params": [_p("größe", "pk", P("int"), default=0), _p("λόγος", "ko", P("str"), default="")], "var_kw": P("int"),
             "options": {"case_insensitive": True, "data_first_search": True}},
     "f12": {"params": [_p("a", "pk", PINT)], "var_pos": P("datetime"), "var_kw": PINT, "options": {"collect_errors": True, "max_errors": 3}},
+    "f13": {"params": [_p("profile", "pk", P("int"), default=0), _p("session", "ko", P("str"), default="")], "var_kw": P("int"),
+            "options": {"case_insensitive": True, "data_first_search": True}},
     "f9": {"params": [_p("a", "pk", {"schema": H_SCHEMAS["S3"]}), _p("b", "pk", {"schema": H_SCHEMAS["S5"]}, default=None)]},
 }
 
